@@ -112,8 +112,11 @@ def gen_case(rng):
                                  'state': rng.choice([
                                             rps.TMGR_STAGING_INPUT_PENDING,
                                             rps.AGENT_EXECUTING])})
+    # the application takes a pilot out of the task manager (remove_pilots)
+    # shortly before it ends: its tasks are still its tasks
+    removed = [p for p in pids if rng.random() < 0.2]
     return {'pids': pids, 'tasks': tasks, 'events': order,
-            'waited': waited, 'late_binds': late,
+            'waited': waited, 'late_binds': late, 'removed': removed,
             'foreign': rng.random() < 0.3,
             'resubmit': rng.random() < 0.4}
 
@@ -235,6 +238,16 @@ def run_case(case, res):
             tm._update_tasks([{'uid': lb['uid'], 'type': 'task',
                                'state': lb['state'], 'pilot': lb['pilot']}])
             res.count('late_binds_applied')
+
+        if pstate in FINAL_STATES and pid in (case.get('removed') or []) \
+                and pid not in dead and pid in pilots:
+            try:
+                tm.remove_pilots(pid)
+                res.count('pilots_removed_before_their_end')
+            except Exception as e:
+                res.inconc('remove_pilots raised in the harness: %r' % e)
+                return
+            dead.add(pid)
 
         before = {u: snap(t) for u, t in tasks.items()}
         exc = None
